@@ -580,6 +580,8 @@ func c08Corpus(c *Ctx, add func(comp, tag, name string, data []byte), addBig fun
 		suffix: []byte("\n\nAAAA\n-----END PGP PUBLIC KEY BLOCK-----\n")})
 	addBig("inspect", "corpus-A1-longheader", "k.asc", &c08Recipe{prefix: []byte("-----BEGIN PGP PUBLIC KEY BLOCK-----\nVersion: "), pattern: []byte("x"), count: 1<<20 - 100,
 		suffix: []byte("\n\nAAAA\n-----END PGP PUBLIC KEY BLOCK-----\n")})
+	// C08-S1: one 64 KiB signature packet of nested embedded signatures (every level copies its hashed area)
+	add("pgpread", "corpus-S1-nested-embedded-sigs", "", pgpNestedSigs(65000))
 	add("armor", "corpus-A1-longheader-64k", "k.asc", []byte("-----BEGIN PGP PUBLIC KEY BLOCK-----\nVersion: "+strings.Repeat("x", 1<<16)+"\n\nAAAA\n-----END PGP PUBLIC KEY BLOCK-----\n"))
 }
 
@@ -1606,22 +1608,23 @@ func pgpNestedSigs(total int) []byte {
 	var one func(room int) []byte
 	one = func(room int) []byte {
 		// version 4, type 0x19, algo RSA (1), hash SHA-256 (8), hashed area, unhashed len 0, hash tag, MPI of 0 bits
-		inner := []byte{}
+		inner := []byte{5, 2, 0x65, 0, 0, 0} // signature creation time (required at every level)
 		if room > 40 {
 			sub := one(room - 16)
 			// subpacket: 5-octet length form, type 32 (embedded signature)
 			l := len(sub) + 1
-			inner = append([]byte{255, byte(l >> 24), byte(l >> 16), byte(l >> 8), byte(l), 32}, sub...)
+			inner = append(inner, append([]byte{255, byte(l >> 24), byte(l >> 16), byte(l >> 8), byte(l), 32}, sub...)...)
 		}
 		s := []byte{4, 0x19, 1, 8, byte(len(inner) >> 8), byte(len(inner))}
 		s = append(s, inner...)
 		return append(s, 0, 0, 0xAA, 0xBB, 0, 0)
 	}
 	var out []byte
+	// a level costs 24 octets and takes 16 from room; the outermost hashed area must stay below 2^16
 	for len(out)+65600 <= total || len(out) == 0 {
-		room := 65000
-		if total < room {
-			room = total
+		room := 43000
+		if total*2/3 < room {
+			room = total * 2 / 3
 		}
 		body := one(room)
 		out = append(out, 0xC2, 255, byte(len(body)>>24), byte(len(body)>>16), byte(len(body)>>8), byte(len(body)))
